@@ -1,7 +1,7 @@
 """C12 – MultiValueTracker: independent per-key statistics, zero-fill, safe normalising.
 
 Explicit enumeration of every sequence (depth 3 quick / 4 thorough) of update dicts over the keys
-{a, b, c} (each key absent / v1 / v2 – 27 letters incl. the empty dict, sign-mixed values so that zero sums
+{a, b, c} (each key absent / v1 / v2 – 36 letters incl. the empty dict, sign-mixed values so that zero sums
 with non-zero entries occur) x base tracker (Welford, ES(1/2), ES(1), ES(1/4)) x numeric type (int, float,
 Fraction, np.float64, np.float32, np.int64); one real update per transition on a deep copy, compared after
 EVERY update with an independent per-key reference (values since first appearance, 0 when omitted).
@@ -23,7 +23,7 @@ PID = 'C12'
 EPS = sys.float_info.epsilon
 TYPES = {'int': int, 'float': float, 'Fraction': F, 'np.float64': np.float64, 'np.float32': np.float32,
          'np.int64': np.int64}
-KEYVALS = {'a': (1, -1), 'b': (-1, 2), 'c': (3, -2)}
+KEYVALS = {'a': (1, -1), 'b': (-1, 2, 0), 'c': (3, -2)}      # b may also be supplied as exactly 0
 
 
 KEY_FAMILIES = {'abc': ('a', 'b', 'c'), 'mixed': ('a', 0, ('x', 1))}   # str / int / tuple keys are not mutually orderable
@@ -32,7 +32,7 @@ KEY_FAMILIES = {'abc': ('a', 'b', 'c'), 'mixed': ('a', 0, ('x', 1))}   # str / i
 def letters(family='abc'):
     out = []
     names = KEY_FAMILIES[family]
-    for combo in itertools.product((None, 0, 1), repeat=3):
+    for combo in itertools.product((None, 0, 1), (None, 0, 1, 2), (None, 0, 1)):
         d = {}
         for key, name, c in zip('abc', names, combo):
             if c is not None:
